@@ -471,7 +471,11 @@ func (g *c11Gen) newCid() cid.Cid {
 		mh, _ := multihash.Encode(g.rng.Bytes(dlen), code)
 		return cid.NewCidV1(codec, mh)
 	}
-	switch g.rng.Intn(10) {
+	switch g.rng.Intn(11) {
+	case 10:
+		// the same 36-byte shape as the CAR writers' CIDs (v1, sha2-256) but another one-byte codec
+		g.s.Count("cid-v1-sha256-other-codec")
+		return mk([]uint64{cid.Raw, cid.DagProtobuf, cid.DagJSON & 0x7f, 0x00, 0x7f}[g.rng.Intn(5)], multihash.SHA2_256, 32)
 	case 0:
 		g.s.Count("cid-v0")
 		mh, _ := multihash.Encode(g.rng.Bytes(32), multihash.SHA2_256)
@@ -771,7 +775,9 @@ func (g *c11Gen) generate(thorough bool) {
 	g.fixtures()
 	// --- parser resource limit of the hand-written path: one list just below and one just above fxamacker's default ---
 	g.emit("case longlist")
-	c := zz.Hex(g.pool[4].Bytes())
+	// a 36-byte CID: 131073 of them stay below the schema-driven decoder's allocation budget (not modelled)
+	llMh, _ := multihash.Encode(g.rng.Bytes(32), multihash.SHA2_256)
+	c := zz.Hex(cid.NewCidV1(cid.DagCBOR, llMh).Bytes())
 	g.emit("longlist Subset 131072 %s", c)
 	g.emit("longlist Epoch 131073 %s", c)
 	// --- inputs outside the schema: no oracle, they only validate the model's error and panic branches ---
